@@ -405,13 +405,13 @@ def _is_body_brace(src: str, j: int) -> bool:
 def judge_all(chk, module: str, records: list, *, consts: dict | None = None, tag="judge", chunk=700, timeout=1200,
               count=True, heap="6g", coverage_probe=True):
     """TLC evaluates the predicate spec `module` on every record.  `-coverage` makes TLC several times slower, so
-    the non-vacuity run with coverage is done on the first few records only (the action `Next` must be taken);
+    the non-vacuity run with coverage is done on the first record only (the action `Next` must be taken);
     that every record was judged is the POSTCONDITION AllConsumed of every run."""
     from engines import projlib
     printed = []
     if coverage_probe and records:
         path = chk.work / f"{tag}-cov.ndjson"
-        vlib.write_ndjson(path, records[:3])
+        vlib.write_ndjson(path, records[:1])
         cfg = chk.work / f"{Path(module).stem}-{tag}-cov.cfg"
         cfg.write_text(projlib.cfg_from_consts(consts or {}, "POSTCONDITION AllConsumed\n"))
         r = vlib.tlc(projlib.SP / module, cfg, workers=1, timeout=timeout, env={"TRACE": str(path)}, dfs=True,
